@@ -17,6 +17,18 @@ VERIF = Path(__file__).resolve().parents[2]
 REPO = Path(os.environ.get("VERIF_REPO", "/repo"))
 COQ = VERIF / "coq"
 BUILD = VERIF / "build"
+if REPO.resolve() != Path("/repo"):
+    # A modified copy of the repository (mutation trials, seeded changes) gets its own copy of the Coq tree: the files
+    # under Gen/ are regenerated from the copy and must not leak into concurrent runs against /repo (and vice versa).
+    import hashlib as _hashlib
+
+    _alt = BUILD / "alt" / _hashlib.sha1(str(REPO.resolve()).encode()).hexdigest()[:10] / "coq"
+    _alt.parent.mkdir(parents=True, exist_ok=True)
+    subprocess.run(["rsync", "-a", "--delete", "--exclude", "Gen/", "--exclude", ".lia.cache", "--exclude", ".nra.cache",
+                    str(COQ) + "/", str(_alt) + "/"], check=True)
+    if not (_alt / "Gen").exists():
+        subprocess.run(["rsync", "-a", str(COQ / "Gen") + "/", str(_alt / "Gen") + "/"], check=True)
+    COQ = _alt
 PY = "/venv/bin/python"
 
 FORBIDDEN = re.compile(
@@ -74,7 +86,7 @@ def sh(cmd: Sequence[str] | str, timeout: int = 600, cwd: Optional[Path] = None,
 class BuildLock:
     def __enter__(self):
         BUILD.mkdir(exist_ok=True)
-        self.f = open(BUILD / ".lock", "w")
+        self.f = open(COQ.parent / ".lock" if COQ.parent != VERIF else BUILD / ".lock", "w")
         fcntl.flock(self.f, fcntl.LOCK_EX)
         return self
 
